@@ -12,8 +12,14 @@ from ural.infer_redirection import infer_redirection as resolve
 from ural.ensure_protocol import ensure_protocol
 from ural.tld import split_suffix
 from ural.patterns import CONTROL_CHARS_RE
+from ural.quote import unquote
 
 LANG_QUERY_KEYS = ("gl", "hl")
+
+# NOTE: every byte but the ascii letters
+EVERYTHING_BUT_LETTERS = bytes(
+    bytearray(i for i in range(256) if not (65 <= i <= 90 or 97 <= i <= 122))
+)
 
 # TODO: drop tld
 
@@ -54,6 +60,12 @@ def strip_lang_subdomain_from_hostname(hostname):
     return hostname
 
 
+def lowercase_url(url):
+    # NOTE: an escaped letter is a letter too ("%49ndex.html" is "Index.html"), and
+    # must be lowercased before normalize_url decides anything on it
+    return unquote(url.lower(), unsafe=EVERYTHING_BUT_LETTERS).lower()
+
+
 def fingerprint_hostname(hostname, strip_suffix=False):
     hostname = normalize_hostname(hostname)
 
@@ -74,7 +86,7 @@ def fingerprint_hostname(hostname, strip_suffix=False):
 def get_fingerprinted_hostname(url, infer_redirection=True, strip_suffix=False):
     # NOTE: fingerprint_url lowercases the url before anything else
     if not isinstance(url, SplitResult):
-        url = url.lower()
+        url = lowercase_url(url)
 
     if infer_redirection:
         url = resolve(url)
@@ -99,7 +111,7 @@ def get_fingerprinted_hostname(url, infer_redirection=True, strip_suffix=False):
 def fingerprint_url(url, unsplit=True, strip_suffix=False, platform_aware=False):
     original_url_arg = url
 
-    url = url.lower()
+    url = lowercase_url(url)
 
     splitted = normalize_url(
         url,
